@@ -1,6 +1,7 @@
 (* C05 — Ring buffer slots: no overwrite before consumption, no unordered access. *)
 From Coq Require Import Arith Lia.
 From DC Require Import Disruptor.Pipeline.
+From DC Require Disruptor.HB.
 
 (* the producer writes sequence q into slot q mod N only when EVERY handler of EVERY stage has returned from
    the sequence q - N previously stored there — for every ring size, topology, batch size and interleaving *)
@@ -25,6 +26,40 @@ Theorem C05_invariant : forall N H stage last s,
   reachable N H stage last s -> Inv N H stage last s.
 Proof. exact Inv_reachable. Qed.
 
+(* ---- happens-before half (model HB: cursors read ONE AT A TIME, Release stores / Acquire loads) ---------- *)
+(* Handler h about to touch sequence i: every fill of slot i mod N performed so far, and every access to that slot
+   performed so far by a handler of another stage, is ordered before it by happens-before.  Unbounded in ring size,
+   topology, batch sizes and interleaving.  Same-stage handlers are excluded: finding D9. *)
+Theorem C05_handler_accesses_race_free : forall N H stage last
+  (N_pos : 1 <= N)
+  (stage_le : forall h, h < H -> stage h <= last)
+  (stage_nonempty : forall k, k <= last -> exists h, h < H /\ stage h = k) s h i a,
+  HB.reachable N H stage last s -> h < H -> HB.hp s h = HB.HBatch i a ->
+  (forall j, j < HB.fill_ptr s -> j mod N = i mod N -> j < HB.kP (HB.khand s h)) /\
+  (forall g j, g < H -> stage g <> stage h -> 1 <= j -> j <= HB.done s g -> j mod N = i mod N ->
+               j <= HB.kH (HB.khand s h) g).
+Proof. exact HB.handler_no_race. Qed.
+
+(* Producer about to fill sequence q: every handler access so far to slot q mod N happens-before the fill. *)
+Theorem C05_producer_fills_race_free : forall N H stage last
+  (N_pos : 1 <= N)
+  (stage_le : forall h, h < H -> stage h <= last)
+  (stage_nonempty : forall k, k <= last -> exists h, h < H /\ stage h = k) s q e m,
+  HB.reachable N H stage last s -> HB.pp s = HB.PFill q e m ->
+  forall g j, g < H -> 1 <= j -> j <= HB.done s g -> j mod N = q mod N -> j <= HB.kH (HB.kprod s) g.
+Proof. exact HB.producer_no_race. Qed.
+
+(* No overwrite before consumption again, without the atomic-snapshot abstraction of the gating reads. *)
+Theorem C05_no_overwrite_percursor : forall N H stage last
+  (N_pos : 1 <= N)
+  (stage_le : forall h, h < H -> stage h <= last)
+  (stage_nonempty : forall k, k <= last -> exists h, h < H /\ stage h = k) s q e m,
+  HB.reachable N H stage last s -> HB.pp s = HB.PFill q e m -> forall h, h < H -> q <= HB.done s h + N.
+Proof. exact HB.no_overwrite_percursor. Qed.
+
 Print Assumptions C05_no_overwrite_before_consumption.
+Print Assumptions C05_handler_accesses_race_free.
+Print Assumptions C05_producer_fills_race_free.
+Print Assumptions C05_no_overwrite_percursor.
 Print Assumptions C05_full_ring_ahead_blocks.
 Print Assumptions C05_invariant.
